@@ -269,9 +269,9 @@ pub fn tail(r: &mut Rng, odd: bool) -> String {
     let lim = if odd && r.chance(1, 2) { Some(odd_count(r)) } else if r.chance(2, 3) { Some(limit_text(r)) } else { None };
     let off = if odd && r.chance(1, 2) {
         Some(odd_count(r))
-    } else if r.chance(1, 10) {
-        // mostly within the table, sometimes beyond it
-        Some(if r.chance(3, 4) { format!("{}", r.below(4)) } else { limit_text(r) })
+    } else if r.chance(1, 4) {
+        // within the table, beyond it, with and without LIMIT: all ordinary since fix 0df51a0
+        Some(if r.chance(1, 2) { format!("{}", r.below(4)) } else { limit_text(r) })
     } else {
         None
     };
@@ -635,7 +635,7 @@ pub fn tokens(r: &mut Rng) -> String {
 // ---- the `shape` sub-language of the API oracle ---------------------------------------------------
 // Statements whose engine behaviour is plain (bare columns, simple integer arithmetic, aggregates
 // over the non-null integer column, filters, ORDER BY on non-null columns with a LIMIT that avoids
-// the top-n path). Violations in this class are never attributed to the family finding about
+// any LIMIT / OFFSET). Violations in this class are never attributed to the family finding about
 // engine-internal panics (see known_findings.d/front.json): they are matched site by site.
 
 fn shape_table(r: &mut Rng) -> (&'static str, String) {
@@ -758,21 +758,24 @@ pub fn shape(r: &mut Rng) -> String {
         };
         s += &format!(" {} {}{}", kw(r, "ORDER BY"), key, dir);
     }
-    let mut limited = false;
     if r.chance(3, 5) {
-        limited = true;
         let l = match r.below(12) {
-            0 if !ordered => "0".to_string(),
+            0 => "0".to_string(),
             1 => format!("{}", u64::MAX),
             2 => "1000000".to_string(),
-            _ => format!("{}", if ordered { 3 + r.below(30) } else { 1 + r.below(30) }),
+            3 => format!("{}", r.below(3)),
+            _ => format!("{}", 1 + r.below(30)),
         };
         s += &format!(" {} {}", kw(r, "LIMIT"), l);
     }
-    if r.chance(1, 14) {
-        // OFFSET: mostly inside the result and with a LIMIT; beyond it / without LIMIT are the
-        // known classes F5a / F5b
-        let o = if limited && r.chance(3, 4) { r.below(3) } else { r.below(40) };
+    if r.chance(1, 4) {
+        // OFFSET inside the result, beyond it, huge; with and without LIMIT
+        let o = match r.below(6) {
+            0 | 1 => format!("{}", r.below(3)),
+            2 | 3 => format!("{}", r.below(40)),
+            4 => format!("{}", u64::MAX),
+            _ => "1000000".to_string(),
+        };
         s += &format!(" {} {}", kw(r, "OFFSET"), o);
     }
     s
@@ -781,17 +784,17 @@ pub fn shape(r: &mut Rng) -> String {
 /// (class, statement) for the conversion differential (no engine involved): everything
 pub fn any(r: &mut Rng) -> (&'static str, String) {
     match r.below(40) {
-        0..=13 => ("probe", supported(r)),
-        14..=17 => ("shape", shape(r)),
-        18..=19 => ("limits", limits(r)),
-        20..=21 => ("quoting", quoting(r)),
-        22..=28 => ("unsupported", unsupported(r)),
-        29..=37 => {
+        0..=9 => ("probe", supported(r)),
+        10..=13 => ("shape", shape(r)),
+        14..=19 => ("limits", limits(r)),
+        20..=25 => ("quoting", quoting(r)),
+        26..=31 => ("unsupported", unsupported(r)),
+        32..=38 => {
             let base = match r.below(8) {
-                0 => limits(r),
-                1 => quoting(r),
-                2 | 3 => unsupported(r),
-                4 => shape(r),
+                0 | 1 => limits(r),
+                2 | 3 => quoting(r),
+                4 => unsupported(r),
+                5 => shape(r),
                 _ => supported(r),
             };
             ("mutation", mutate(r, &base))
@@ -804,16 +807,16 @@ pub fn any(r: &mut Rng) -> (&'static str, String) {
 /// grammar (`probe`) is capped
 pub fn any_api(r: &mut Rng) -> (&'static str, String) {
     match r.below(40) {
-        0..=18 => ("shape", shape(r)),
-        19..=21 => ("probe", supported(r)),
-        22 => ("limits", limits(r)),
-        23..=24 => ("quoting", quoting(r)),
-        25..=31 => ("unsupported", unsupported(r)),
-        32..=38 => {
+        0..=13 => ("shape", shape(r)),
+        14..=16 => ("probe", supported(r)),
+        17..=21 => ("limits", limits(r)),
+        22..=26 => ("quoting", quoting(r)),
+        27..=32 => ("unsupported", unsupported(r)),
+        33..=38 => {
             let base = match r.below(8) {
-                0 => limits(r),
-                1 => quoting(r),
-                2 | 3 => unsupported(r),
+                0 | 1 => limits(r),
+                2 | 3 => quoting(r),
+                4 => unsupported(r),
                 _ => shape(r),
             };
             ("mutation", mutate(r, &base))
